@@ -2,15 +2,27 @@ from ..contract import contract
 
 M = 'gambatools.nfa_algorithms'
 
+# termination: a state enters the work list only when it is new (result grows inside the finite set N.Q | seed), and every round removes one;
+# measure 2 * |(N.Q | seed) - result| + |todo|
+_EMEAS = '2 * card((N.Q | seed0) - result) + card(todo)'
 _ECLO_LOOP = {1: {'invariant': ['seed0 <= result', 'todo <= result', 'result <= Eclo(N, seed0)',
-                                'all(step(N, x, N.epsilon) <= result for x in result - todo)'],
-                  'exit_hints': ['Eclo_least(N, seed0, result)']}}
+                                'all(step(N, x, N.epsilon) <= result for x in result - todo)',
+                                'result <= N.Q | seed0', 'fin(result)', 'fin(todo)'],
+                  'exit_hints': ['Eclo_least(N, seed0, result)'], 'decreases': [_EMEAS],
+                  'snapshot': {'r0': 'result', 't0': 'todo'},
+                  'body_end': ['fin(Q1)', 'all(implies(x in Q1, x in (N.Q | seed0) - r0) for x in atoms())', 'result == r0 | Q1',
+                               '(N.Q | seed0) - result == ((N.Q | seed0) - r0) - Q1',
+                               'card((N.Q | seed0) - result) == card((N.Q | seed0) - r0) - card(Q1)',
+                               'fin(t0 - {q}) and card(t0 - {q}) == card(t0) - 1', 'todo == (t0 - {q}) | Q1',
+                               'card(todo) <= card(t0) - 1 + card(Q1)']}}
 for variant, qt, seed in (('state', 'State', '{q}'), ('set', 'Set[State]', 'q')):
     contract(M, 'epsilon_closure', {'N': 'NFA', 'q': qt}, returns='Set[State]', variant=variant,
              requires=['nfa_wf(N)'],
+             type_invariants=['fin(N.Q)', 'fin(seed0)', 'all(fin(lookup(N.delta, (x, b))) for x in atoms() for b in atoms())'],
              ensures=['result == Eclo(N, seed0)'],
              ghost={'seed0': seed}, loops=_ECLO_LOOP,
-             theories=['word', 'nfa'], props=['C01', 'C03', 'C19'])
+             theories=['word', 'nfa'], props=['C01', 'C03', 'C19'],
+             note='total correctness; the finiteness of the set objects involved is a type invariant of Python sets (assumed at entry, not a precondition)')
 
 contract(M, '_nfa_cache', {'N': 'NFA'}, returns='(Map[State,Set[State]], Map[(State,Symbol),Set[State],default=set])',
          requires=['nfa_wf(N)'],
